@@ -171,6 +171,7 @@ def run(ctx):
     r.rule("S9", "the '--' check dominates comment emission", floor=1)
     text_rules(ctx)
     cr_and_leading_lf(ctx)
+    solidus_and_script_rules(ctx)
     rawtext_rules(ctx)
     child_in_rawtext_rule(ctx)
     attr_key_rule(ctx)
@@ -425,6 +426,41 @@ def cr_and_leading_lf(ctx):
                 "text loses its first character" % (elem, got, got_sp), detail={"written": got})
 
 
+def solidus_and_script_rules(ctx):
+    """S12: a trailing solidus is written only for HTML void elements: on a start tag in foreign content the parser honours the
+    self-closing flag, so `<svg><input />text</input>` (an SVG element that merely has a void element's name) re-reads with the
+    element closed at once and its content outside.
+    S13: the text of a script element can be represented only if it leaves the tokenizer in the plain script-data state at the
+    end tag: a `<!--` followed by `<script` (script-data double-escaped state) makes the written `</script>` part of the text.  The
+    `</` test alone does not see that."""
+    r = ctx.r
+    f, cfg = serialize_cfg(ctx)
+    r.rule("S12", "the trailing solidus is written for HTML void elements only", floor=1)
+    r.rule("S13", "script text that would enter the double-escaped state is reported", floor=1)
+    tests = [t for t in ast.walk(f.node) if isinstance(t, ast.If) and "use_trailing_solidus" in norm(t.test)]
+    if len(tests) != 1:
+        r.idiom("S12", False, "solidus-html-void-only", f.where, "serialize: the trailing-solidus decision was not found")
+    else:
+        t = norm(tests[0].test)
+        ok = "namespace" in t or "'EmptyTag'" in t
+        r.idiom("S12", ok, "solidus-html-void-only", "%s:%d" % (REL, tests[0].lineno), "trailing-solidus test `%s` not recognised" % t,
+                wrong=[("voidElements" in t and not ok,
+                        "the trailing solidus is decided by the element *name* alone (`%s`): with use_trailing_solidus=True an SVG element named "
+                        "input (`<svg><input>text</input></svg>`) is written `<input />text</input>`, which re-reads as a self-closed element "
+                        "followed by text" % t)])
+    arm = _text_arm(f)
+    if arm is None:
+        r.idiom("S13", False, "script-double-escape-reported", f.where, "serialize: the arm for character tokens was not found")
+    else:
+        src = " ".join(norm(st) for st in arm.body)
+        looks = "<!--" in src or "<script" in src.replace("</script", "")
+        r.idiom("S13", looks, "script-double-escape-reported", "%s:%d" % (REL, arm.lineno), "raw-text checks not recognised",
+                wrong=[("find('</')" in src and not looks,
+                        "raw text is only checked for `</`: the script text `<!--<script>` passes, is written as "
+                        "`<script><!--<script></script>`, and a parser reading that is in the script-data double-escaped state when it meets "
+                        "`</script>`, which therefore becomes text together with everything after it; no error is reported")])
+
+
 def rawtext_rules(ctx):
     r = ctx.r
     ce = ctx.ce
@@ -602,6 +638,7 @@ def thorough(ctx):
 def mutants():
     from ..selftest import TextMutant as T
     return [
+        T("solidus-by-name-only", REL, "                if (name in voidElements and self.use_trailing_solidus and\n                        token.get(\"namespace\") in (None, namespaces[\"html\"])):", "                if name in voidElements and self.use_trailing_solidus:", "S12"),
         T("child-check-starttag-only", REL, "                elif in_cdata:\n                    self.serializeError(\"Unexpected child element of a CDATA element\")\n                for (_, attr_name), attr_value",
           "                elif in_cdata and type == \"StartTag\":\n                    self.serializeError(\"Unexpected child element of a CDATA element\")\n                for (_, attr_name), attr_value", "S4"),
         T("escape-only-lt", REL, "                    yield self.encode(escape(token[\"data\"]))", "                    yield self.encode(token[\"data\"].replace(\"<\", \"&lt;\"))", "S1"),
